@@ -2,4 +2,6 @@ INIT Init
 NEXT Next
 PROPERTY Prop
 PROPERTY Frame
+PROPERTY KeepLen
+PROPERTY KeepSubLen
 CONSTRAINT Depth
